@@ -209,7 +209,7 @@ pub fn raw<const L: usize>() {
 inst!(c18_is_equal, [props=C18+C05 xprops=C14 tier=quick cfg=x86std+generic t=900 role=is_equal], 34, sym_equal::<39>(32));
 inst!(c18_is_prefix, [props=C18 xprops=C05+C14 tier=quick cfg=x86std t=900 role=is_prefix], 26, sym_prefix::<31>(24));
 inst!(c18_is_suffix, [props=C18 xprops=C05+C14 tier=quick cfg=x86std t=900 role=is_suffix], 26, sym_suffix::<31>(24));
-inst!(c18_alias_12, [props=C18+C14 tier=quick cfg=x86std t=900 role=aliasing-operands], 14, sym_alias::<12>());
+inst!(c18_alias_12, [props=C18 xprops=C14 tier=quick cfg=x86std t=900 role=aliasing-operands], 14, sym_alias::<12>());
 inst!(c18_raw_19, [props=C18+C05+C14 tier=quick cfg=x86std t=900 role=is_equal_raw], 21, raw::<19>());
 inst!(c18_exact_7_7, [props=C18+C05 tier=quick cfg=x86std t=600 role=exact-operands], 9, exact::<7, 7>());
 inst!(c18_exact_6_3, [props=C18+C05 tier=quick cfg=x86std t=600 role=exact-operands], 9, exact::<6, 3>());
